@@ -53,6 +53,32 @@ def comment_oracle(sc, driver):
     return ("known", {"lost": missing}, sorted(classes))
 
 
+def shrink(h, clir, sc, driver, obs):
+    """smaller program on which the same comment is still lost / the output still has a foreign comment"""
+    def fmt(s):
+        return clir.format(s) if driver == "cli" else L.impl_format(h, [(s, sc.width, "lib")])[0]
+    lost = obs.get("lost")
+    if lost:
+        t = lost[0]
+
+        def pred(s):
+            o = fmt(s)
+            return o[0] == "OK" and t in L.py_scan(s) and t not in L.py_scan(o[1])
+    else:
+        def pred(s):
+            o = fmt(s)
+            if o[0] != "OK":
+                return False
+            a, b = L.py_scan(s), L.py_scan(o[1])
+            pos = 0
+            for g in b:
+                if g not in a[pos:]:
+                    return True
+                pos = a.index(g, pos) + 1
+            return False
+    return L.shrink_lines(sc.src, pred)
+
+
 def replay(h, cli, path):
     with open(path) as f:
         rp = json.load(f)
@@ -129,6 +155,7 @@ def main(argv):
                         known_hits[k] = known_hits.get(k, 0) + 1
                     continue
                 if len(res.violations) < 5:
+                    obs = dict(obs, shrunk_source=shrink(h, clir, sc, driver, obs))
                     res.violation(what, dict(obs, kind="impl-law", source=sc.src, width=sc.width, driver=driver,
                                              formatted=out[1],
                                              expected="comment sequence of the output == comment sequence of the input",
